@@ -1,1 +1,7 @@
--- proofs root
+import OSProofs.Gauss
+import OSProofs.RealInst
+import OSProofs.Sched
+import OSProofs.Props.C14
+import OSProofs.Props.C15
+import OSProofs.Props.C18
+import OSProofs.Props.C19
